@@ -94,7 +94,7 @@ def scenarios(tier, seed):
                     f = dict(a)
                     f.update(b)
                     items.append(('c04', S.with_faults(scn, f), None))
-    nrand = 400 if tier == 'quick' else 6000
+    nrand = 1200 if tier == 'quick' else 20000
     for _ in range(nrand):
         scn = rng.choice(B)
         m = rng.choice((50, 50, 128))
